@@ -278,8 +278,10 @@ CHECKS["C08"] = {
           "features with basins, logs and tables. Proof over the HDF5 object model that rtdc_copy copies every file attribute (metadata) "
           "with its value, every log under the prefixed name exactly when logs are included, every table with equal content and "
           "attributes exactly when tables are included, hands exactly the requested features (all / scalar / none) to h5ds_copy and "
-          "leaves the source untouched.",
-  "note": "h5ds_copy's dataset transfer (chunk iteration, object-string to fixed-width conversion, h5o.copy), defective-feature handling, "
+          "leaves the source untouched; that h5ds_copy transfers a numeric dataset with equal values, order and attributes "
+          "on all three routes (HDF5 object copy when already compressed, re-creation and chunk-by-chunk fill with a loop invariant, "
+          "re-creation and whole-array fill) and returns the new dataset.",
+  "note": "h5ds_copy for object-string datasets (conversion to fixed width), groups (trace), empty datasets, defective-feature handling, "
           "basin definition rewriting, the completion of min/max/mean attributes (C20) and .tdms reading are outside these contracts. "
           "The bounded stand-in runs on every check: an input with unicode logs longer than 100 bytes, table attributes, user metadata "
           "with ':' and '=', dotted output names; compress / repack outputs compared with the input value by value (datasets, "
